@@ -223,7 +223,12 @@ def build(obl, scratch, odir):
         step += 1
         cmd = ["goto-instrument"]
         for r in obl.restrict_fp:
-            cmd += ["--restrict-function-pointer", r]
+            # "site/targets" (labelled call site fn.function_pointer_call.N) or
+            # "name:sym/targets" (by name, e.g. a function-pointer parameter fn::param)
+            if r.startswith("name:"):
+                cmd += ["--restrict-function-pointer-by-name", r[5:]]
+            else:
+                cmd += ["--restrict-function-pointer", r]
         rc, so, se, _ = _run(cmd + [cur, nxt], timeout=300)
         if rc != 0:
             return None, "goto-instrument --restrict-function-pointer failed:\n%s" % (se or so).decode(errors="replace")[-2000:]
@@ -245,7 +250,9 @@ def cbmc_cmd(obl, binary, extra=()):
             cmd += ["--external-sat-solver", "kissat"]
         else:
             cmd += ["--sat-solver", obl.sat]
-    cmd += obl.flags
+    # formula slicing drops input assignments from --trace (the replay would
+    # then consume values out of step): never slice the trace re-run
+    cmd += [f for f in obl.flags if not ("--trace" in extra and f == "--slice-formula")]
     cmd += list(extra)
     return cmd
 
@@ -307,6 +314,9 @@ def classify(results):
             continue
         if st == "SUCCESS":
             ok += 1
+        elif st not in ("FAILURE",):
+            # ERROR / UNKNOWN: the solver gave no verdict (e.g. out of memory)
+            unwind_fail.append((pid, "vp-inconclusive: solver status %s for: %s" % (st, desc)))
         elif ".unwind." in pid or "unwinding assertion" in desc or ".recursion" in pid:
             unwind_fail.append((pid, desc))
         elif desc.startswith("vp-model:"):
@@ -437,7 +447,7 @@ def run_obligation(obl, scratch, keep=False):
         # termination inside the stated bound is part of the property
         keep_u = []
         for (p, d) in unwind_fail:
-            if d.startswith("vp-model:"):
+            if d.startswith("vp-model:") or d.startswith("vp-inconclusive:"):
                 keep_u.append((p, d))
             else:
                 fails.append((p, "does not terminate within the stated bound: " + d, "FAILURE"))
